@@ -144,3 +144,27 @@ func VH_C20_DecodeValue(kind, N, mode int) {
 	d.discardAll()
 	vhReach("c20-decode-value")
 }
+
+// Structured variant for the tag buffer of a flexible response header: the frame announces more than arrives, the
+// tagged-field count is an arbitrary 64-bit value (encoded as a 10-byte varint), followed by `extra` arbitrary
+// bytes. The loop over the tagged fields must end with the bytes, not with the count.
+func VH_C20_FlexHeaderTags(apiKey, version, extra int) {
+	vhAllocLimit(vhC20AllocLimit)
+	vhSplitCap(16)
+	count := vhUint64("tagged_field_count")
+	announced := vhInt32("announced_size")
+	n := 4 + 10 + extra
+	vhAssume(announced >= int32(n))
+	w := &vhW{}
+	w.i32(announced)
+	w.i32(vhInt32("correlation_id"))
+	for i := 0; i < 9; i++ {
+		w.u8(0x80 | byte(count>>(7*uint(i)))&0x7f)
+	}
+	w.u8(byte(count>>63) & 1)
+	w.raw(vhBytes("rest", extra))
+	conn := NewConn(&vhFakeConn{data: w.b}, "vh")
+	_, msg, err := ReadResponse(conn, ApiKey(apiKey), int16(version))
+	vhAssert(vhAny(msg != nil, err != nil), "flex-header-outcome-is-message-or-error")
+	vhReach("c20-flex-header-tags")
+}
